@@ -21,6 +21,18 @@ package main
 //
 // Every interleaving of child outputs with each other and with client input is
 // therefore chosen by the case, not by the scheduler.
+//
+// Several sessions of ONE handler value (the deployment: one MergeHandler
+// serves every connection): a case with "sessions": k > 1 calls ServeNostr k
+// times on the same handler before the first step; every step carries the
+// session ("s") it belongs to, a scripted child has one port per session (it
+// learns the session of a ServeNostr call from a context value, which the merge
+// handler hands down to its children), and the sentinel of a step travels
+// through the step's session.  The steps of different sessions interleave as the
+// case says.  When the steps are over, one more sentinel is pushed through every
+// session: a message that comes out of a session without one of its own steps
+// in flight shows up there at the latest (it is recorded as a failure of the run,
+// if it did not already appear in front of a later step of that session).
 
 import (
 	"bufio"
@@ -51,6 +63,7 @@ type mMsg struct {
 
 type mStep struct {
 	K   string           `json:"k"` // req | close | event | count | child
+	S   int              `json:"s,omitempty"` // the session the step belongs to (cases with several sessions)
 	Sub string           `json:"sub,omitempty"`
 	Fs  []common.JFilter `json:"fs,omitempty"`
 	ID  string           `json:"id,omitempty"`
@@ -61,6 +74,7 @@ type mStep struct {
 
 type mCase struct {
 	N     int     `json:"n"`
+	Sess  int     `json:"sessions,omitempty"` // sessions of the one handler value; 0 and 1: a single session
 	Steps []mStep `json:"steps"`
 	Fail  string  `json:"fail,omitempty"` // panic / hang / protocol failure of the run, "" when clean
 }
@@ -125,13 +139,26 @@ func (st *mStep) toClient() mocrelay.ClientMsg {
 	panic("harness: unknown client step " + st.K)
 }
 
-// scriptChild: a Handler under harness control.
-type scriptChild struct {
+// scriptChild: a Handler under harness control, with one port per session.
+type scriptPort struct {
 	cmd chan []mocrelay.ServerMsg // harness -> child: emit these, in order
 	got chan mocrelay.ClientMsg   // child -> harness: received this from the session
 }
 
+type scriptChild struct {
+	ports []scriptPort
+}
+
+// mergeSessKey: context key under which runMerge announces the session number
+// of a ServeNostr call to the scripted children.
+type mergeSessKey struct{}
+
 func (c *scriptChild) ServeNostr(ctx context.Context, send chan<- mocrelay.ServerMsg, recv <-chan mocrelay.ClientMsg) error {
+	k, _ := ctx.Value(mergeSessKey{}).(int)
+	if k < 0 || k >= len(c.ports) {
+		return fmt.Errorf("scripted child: unknown session %d", k)
+	}
+	p := c.ports[k]
 	for {
 		select {
 		case <-ctx.Done():
@@ -141,11 +168,11 @@ func (c *scriptChild) ServeNostr(ctx context.Context, send chan<- mocrelay.Serve
 				return nil
 			}
 			select {
-			case c.got <- m:
+			case p.got <- m:
 			case <-ctx.Done():
 				return nil
 			}
-		case ms := <-c.cmd:
+		case ms := <-p.cmd:
 			for _, m := range ms {
 				select {
 				case send <- m:
@@ -171,55 +198,73 @@ func runMerge(c *mCase) {
 		}
 	}()
 
+	nsess := c.Sess
+	if nsess < 1 {
+		nsess = 1
+	}
+	if nsess > 16 {
+		c.Fail = "bad case: too many sessions"
+		return
+	}
 	children := make([]*scriptChild, c.N)
 	hs := make([]mocrelay.Handler, c.N)
 	for i := range children {
-		children[i] = &scriptChild{cmd: make(chan []mocrelay.ServerMsg), got: make(chan mocrelay.ClientMsg)}
+		children[i] = &scriptChild{ports: make([]scriptPort, nsess)}
+		for k := range children[i].ports {
+			children[i].ports[k] = scriptPort{cmd: make(chan []mocrelay.ServerMsg), got: make(chan mocrelay.ClientMsg)}
+		}
 		hs[i] = children[i]
 	}
 	h := mocrelay.NewMergeHandler(hs...) // panics for fewer than two handlers: recorded above
 
 	ctx, cancel := context.WithCancel(context.Background())
-	send := make(chan mocrelay.ServerMsg)
-	recv := make(chan mocrelay.ClientMsg)
-	done := make(chan string, 1)
-	go func() {
-		defer func() {
-			if r := recover(); r != nil {
-				done <- fmt.Sprintf("panic in ServeNostr: %v", r)
-			}
-		}()
-		h.ServeNostr(ctx, send, recv)
-		done <- ""
-	}()
+	sends := make([]chan mocrelay.ServerMsg, nsess)
+	recvs := make([]chan mocrelay.ClientMsg, nsess)
+	dones := make([]chan string, nsess)
+	for k := 0; k < nsess; k++ {
+		sends[k] = make(chan mocrelay.ServerMsg)
+		recvs[k] = make(chan mocrelay.ClientMsg)
+		dones[k] = make(chan string, 1)
+		go func(k int) {
+			defer func() {
+				if r := recover(); r != nil {
+					dones[k] <- fmt.Sprintf("panic in ServeNostr: %v", r)
+				}
+			}()
+			h.ServeNostr(context.WithValue(ctx, mergeSessKey{}, k), sends[k], recvs[k])
+			dones[k] <- ""
+		}(k)
+	}
 	defer func() {
 		cancel()
-		select {
-		case msg := <-done:
-			if msg != "" && c.Fail == "" {
-				c.Fail = msg
-			}
-		case <-time.After(mergeStepTimeout):
-			if c.Fail == "" {
-				c.Fail = "hang: the session did not end after its context was cancelled"
+		for k := 0; k < nsess; k++ {
+			select {
+			case msg := <-dones[k]:
+				if msg != "" && c.Fail == "" {
+					c.Fail = msg
+				}
+			case <-time.After(mergeStepTimeout):
+				if c.Fail == "" {
+					c.Fail = "hang: the session did not end after its context was cancelled"
+				}
 			}
 		}
 	}()
 
-	// collect reads the client side until the sentinel arrives.
-	collect := func(st *mStep, sentinel mocrelay.ServerMsg) bool {
+	// collect reads the client side of session k until the sentinel arrives.
+	collect := func(k int, st *mStep, sentinel mocrelay.ServerMsg) bool {
 		timer := time.NewTimer(mergeStepTimeout)
 		defer timer.Stop()
 		for {
 			select {
-			case m := <-send:
+			case m := <-sends[k]:
 				if m == sentinel {
 					return true
 				}
 				st.Out = append(st.Out, fromServer(m))
-			case msg := <-done:
+			case msg := <-dones[k]:
 				c.Fail = "session ended early: " + msg
-				done <- msg
+				dones[k] <- msg
 				return false
 			case <-timer.C:
 				c.Fail = "hang: sentinel did not arrive"
@@ -227,9 +272,9 @@ func runMerge(c *mCase) {
 			}
 		}
 	}
-	tell := func(i int, ms []mocrelay.ServerMsg) bool {
+	tell := func(k, i int, ms []mocrelay.ServerMsg) bool {
 		select {
-		case children[i].cmd <- ms:
+		case children[i].ports[k].cmd <- ms:
 			return true
 		case <-time.After(mergeStepTimeout):
 			c.Fail = fmt.Sprintf("hang: child %d does not take commands", i)
@@ -239,23 +284,27 @@ func runMerge(c *mCase) {
 
 	for k := range c.Steps {
 		st := &c.Steps[k]
+		if st.S < 0 || st.S >= nsess {
+			c.Fail = "bad case: session index out of range"
+			return
+		}
 		sentinel := mocrelay.ServerMsg(mocrelay.NewServerNoticeMsg(fmt.Sprintf("\x00sentinel %d", k)))
 		if st.K == "child" {
 			if st.I < 0 || st.I >= c.N || st.M == nil {
 				c.Fail = "bad case: child index out of range"
 				return
 			}
-			if !tell(st.I, []mocrelay.ServerMsg{st.M.toServer(), sentinel}) {
+			if !tell(st.S, st.I, []mocrelay.ServerMsg{st.M.toServer(), sentinel}) {
 				return
 			}
-			if !collect(st, sentinel) {
+			if !collect(st.S, st, sentinel) {
 				return
 			}
 			continue
 		}
 		msg := st.toClient()
 		select {
-		case recv <- msg:
+		case recvs[st.S] <- msg:
 		case <-time.After(mergeStepTimeout):
 			c.Fail = "hang: the session does not read client messages"
 			return
@@ -263,12 +312,12 @@ func runMerge(c *mCase) {
 		// the session broadcasts in child order over unbuffered channels
 		for i := range children {
 			select {
-			case g := <-children[i].got:
+			case g := <-children[i].ports[st.S].got:
 				if g != msg {
 					c.Fail = fmt.Sprintf("child %d received a different client message", i)
 					return
 				}
-			case m := <-send:
+			case m := <-sends[st.S]:
 				// nothing should come out before the broadcast is over
 				st.Out = append(st.Out, fromServer(m))
 				c.Fail = "output during a client broadcast"
@@ -278,11 +327,26 @@ func runMerge(c *mCase) {
 				return
 			}
 		}
-		if !tell(0, []mocrelay.ServerMsg{sentinel}) {
+		if !tell(st.S, 0, []mocrelay.ServerMsg{sentinel}) {
 			return
 		}
-		if !collect(st, sentinel) {
+		if !collect(st.S, st, sentinel) {
 			return
+		}
+	}
+	if nsess > 1 {
+		// nothing may be waiting on a session that has no step in flight
+		for k := 0; k < nsess; k++ {
+			var extra mStep
+			sentinel := mocrelay.ServerMsg(mocrelay.NewServerNoticeMsg(fmt.Sprintf("\x00final sentinel %d", k)))
+			if !tell(k, 0, []mocrelay.ServerMsg{sentinel}) || !collect(k, &extra, sentinel) {
+				return
+			}
+			if len(extra.Out) > 0 {
+				b, _ := json.Marshal(extra.Out)
+				c.Fail = fmt.Sprintf("session %d produced output while none of its steps was in flight: %s", k, b)
+				return
+			}
 		}
 	}
 }
